@@ -255,12 +255,12 @@ def campaign(run: common.Run) -> None:
         check_program(run, node, T, env, run.hyp_fail)
 
     # shallow programs put each production at the root; deeper ones nest them
-    common.drive(run, body, {"p": gen.typed_program(1)}, 200 if q else 8000, seed_salt=1)
-    common.drive(run, body, {"p": gen.typed_program(3)}, 300 if q else 8000, seed_salt=2)
-    common.drive(run, body, {"p": template_case()}, 500 if q else 20000, seed_salt=5)
+    common.drive(run, body, {"p": gen.typed_program(1)}, 200 if q else 3000, seed_salt=1)
+    common.drive(run, body, {"p": gen.typed_program(3)}, 300 if q else 3000, seed_salt=2)
+    common.drive(run, body, {"p": template_case()}, 350 if q else 5000, seed_salt=5)
     # nested macros (list or map receivers) and navigation of JSON-like documents (null / empty members included)
-    common.drive(run, body, {"p": gen.nested_macro_program()}, 150 if q else 4000, seed_salt=3)
-    common.drive(run, body, {"p": gen.document_program()}, 250 if q else 6000, seed_salt=4)
+    common.drive(run, body, {"p": gen.nested_macro_program()}, 150 if q else 1500, seed_salt=3)
+    common.drive(run, body, {"p": gen.document_program()}, 250 if q else 2000, seed_salt=4)
 
 
 def main(run: common.Run) -> None:
